@@ -236,6 +236,9 @@ func (ms MultiSigSmartContract) vote(currentTxnHash, signingClientID string, now
 	// execute the transfer soon. If the signature is found to be invalid,
 	// this vote transaction will fail.
 	signedTransfer := w.makeSignedTransferForProposal(p)
+	if err := signedTransfer.VerifySignature(true); err != nil {
+		return "", common.NewError("err_vote_recover", " recovered signature is not a valid signature of the wallet: "+err.Error())
+	}
 	balances.AddSignedTransfer(&signedTransfer)
 
 	// Save the proposal again.
